@@ -8,6 +8,7 @@ import (
 	"verif/core"
 	"verif/e2/check"
 	"verif/e2/families"
+	"verif/e2/spec"
 )
 
 func rules(c *core.Ctx) {
@@ -24,6 +25,8 @@ func rules(c *core.Ctx) {
 		"Per method: every candidate value of the type menus (complete product for <= 2 attributes), classified by the reference validator: valid -> generated client -> grpc over bufconn -> generated server -> stub must receive an equal payload / the caller an equal result; " +
 		"invalid -> stub not invoked and client error; streaming: all sequences of length 0..2 over 2 values (thorough 0..3 over 3) plus every valid value once, per direction; " +
 		"one case = (method, value or sequence); non-trivial = value set; every case is one end-to-end execution")
+	c.Rule("validated streams (family g-streamval): " + spec.GRPCStreamValidationDoc)
+	c.Rule("client reuse (family g-reuse): " + spec.GRPCReuseDoc)
 	c.Assume("protoc is a stand-in (verif/cmd/protoc, engine E5): hand-written strict proto3 parser for the subset goa emits + protodesc.NewFile validation + reserved-range and JSON-name checks from the language guide; real protoc diagnostics (style warnings, other language features) are not reproduced")
 	c.Assume("<name>.pb.go is genuine protoc-gen-go v1.35.1 output (compiler/protogen + internal_gengo run in-process); <name>_grpc.pb.go is written by a stand-in generator reproducing protoc-gen-go-grpc v1.5 output for google.golang.org/grpc v1.67.1")
 	c.Assume("transport: real grpc.Server and grpc.ClientConn over an in-memory bufconn listener (no sockets); a recovery interceptor turns handler panics into observations")
@@ -32,6 +35,12 @@ func rules(c *core.Ctx) {
 	c.Assume("collections that are nil where required or empty where length-validated are asserted neither valid nor invalid (nil and empty are the same value)")
 	c.Assume("the pb packages of all designs of a family are linked into one driver binary with GOLANG_PROTOBUF_REGISTRATION_CONFLICT=ignore (designs reuse protocol buffer names; messages keep their own descriptors)")
 	c.Assume("only the gen command is run: the example server goa writes for a gRPC-only design is outside this property")
+	c.Assume("gRPC streams do not transmit the view of a multi-view result: the service selects it with the server stream's SetView and the caller of the generated client stream states the same view with the client stream's SetView")
+	c.Assume("validated streams: Int / UInt numbers beyond 32 bits are replaced by the 32-bit extremes (the 32-bit mapping of Int is reported by the g-types family)")
+	c.Assume("client reuse: the stand-in <svc>_grpc.pb.go holds two implementations of the protocol buffer client interface, New<Svc>Client in the shape of protoc-gen-go-grpc v1.5 (every method copies its call options) and New<Svc>ClientV13 in the shape of the plugin up to v1.3 (options handed to the connection as received); " +
+		"the generated NewClient hard-wires the first, the harness stores the second into the generated client's grpccli field (of the interface type) for the pb-stub=v1.3 configurations; nothing else of the generated client is replaced")
+	c.Assume("client reuse: a call is held either inside the service method or in a client interceptor of the connection (before the RPC starts) by waiting on a channel; schedules are fixed by the harness, no timing is involved; " +
+		"with google.golang.org/grpc v1.67.1 the options of a call are copied when the RPC starts, so a client that shares option memory between calls is observable only while a call waits in an interceptor behind a v1.3-style stub")
 }
 
 func run(c *core.Ctx) {
@@ -51,7 +60,22 @@ func run(c *core.Ctx) {
 	c.Note("proto_messages_checked", st.messages)
 	c.Note("proto_fields_checked", st.fields)
 	c.Note("proto_rpcs_checked", st.rpcs)
-	c.Note("bounds", "quick: stream sequences <= 2 over 2 values; thorough: <= 3 over 3 values, full header/trailer type menu, self-referential array type")
+	c.Note("bounds", "quick: stream sequences <= 2 over 2 values; thorough: <= 3 over 3 values, full header/trailer type menu, self-referential array type; "+
+		"validated streams: sequences of length 0..3 over {valid, invalid} in both tiers (thorough: 10 keywords instead of 5); client reuse: letter sequences of length 1..3 and all 2-call overlaps in both tiers (thorough: 5 option-slice shapes x 2 stub styles instead of 1 x 2, one more service)")
+	c.Note("menu_validated_streams", map[string]any{
+		"sides": "payload (kinds client, bidi), result (kinds server, bidi)", "shapes": []string{"primitive", "array", "map", "user"},
+		"keywords_quick":          []string{"enum_string", "min_int", "exmax_int", "maxlen_string", "pattern_string", "maxlen_array (array)", "maxlen_map (map)"},
+		"keywords_thorough_added": []string{"max_float64", "exmin_float64", "minlen_string", "minmax_int32", "format_ipv4"},
+		"result_kinds":            "side payload: client {none, plain, rt2, rt1}, bidi {plain, rt2, rt1}; side result: plain, and for shape user rt2 (views default, tiny), rt1",
+		"patterns":                "15 sequences of length 0..3 over {V, I}; I once per distinct violated rule set (<= 3); multi-view results under every view",
+		"methods":                 len(spec.GRPCStreamValidation(c.Thorough()))})
+	c.Note("menu_client_reuse", map[string]any{
+		"client_option_slices_quick": []string{"len 1 cap 8"}, "client_option_slices_thorough": []string{"none", "len 1 cap 1", "len 1 cap 3", "len 1 cap 8", "len 2 cap 8"},
+		"pb_stub_styles": []string{"v1.5 (copies call options)", "v1.3 (hands call options on)"},
+		"letters":        "2 value variants per method of the service (multi-view result: views default / alt)",
+		"sequences":      "all of length 1..3 over the letters: n + n^2 + n^3 per service (n = 8 letters with 4 executable methods: 584)",
+		"overlaps":       "all ordered letter pairs x held in {service method, client interceptor} x schedules {nested, a-first, b-first}: 6 n^2 per service (384 with 8 letters)",
+		"methods":        len(spec.GRPCReuse(c.Thorough()))})
 }
 
 // runFamily builds a family and applies the oracles; onlyMethod (method names are unique within
